@@ -858,8 +858,8 @@ def c16_plan(pid, tier, seed, t0):
         jobs.append(("handoff", [conc, "handoff", str([4, 8, 16][k % 3]), str(300 if tier == "quick" else 3000), str(seed * 37 + k)]))
     for k in range(6 if tier == "quick" else 150):
         jobs.append(("crowd", [conc, "crowd", str([8, 16, 4][k % 3]), str(40 if tier == "quick" else 300), str(seed * 41 + k)]))
-    for k in range(8 if tier == "quick" else 160):
-        jobs.append(("hammer", [conc, "hammer", str([8, 32, 4, 16][k % 4]), str(150 if tier == "quick" else 1500), str(seed * 43 + k)]))
+    for k in range(4 if tier == "quick" else 60):
+        jobs.append(("hammer", [conc, "hammer", str([8, 32, 16, 24][k % 4]), str(600 if tier == "quick" else 2500), str(seed * 43 + k)]))
     first_runs = 200 if tier == "quick" else 10000
     for k in range(first_runs):
         spins = rnd.choice([0, 0, 1000, 10000, 100000, 1000000, 3000000])
@@ -885,41 +885,49 @@ def c16_plan(pid, tier, seed, t0):
         env_t = None
     arrived_hist = {}
     inits = {}
-    with ThreadPoolExecutor(max_workers=o.NCPU) as ex:
-        futs = [(kind, cmd, ex.submit(_run_json, cmd, env_t if kind.startswith("tsan") else None)) for kind, cmd in jobs]
-        for kind, cmd, f in futs:
-            out, rc, stderr = f.result()
-            if rc == "watchdog":
-                merged["inconclusive"].append("%s: wall-clock watchdog" % " ".join(cmd[1:]))
-                continue
-            if kind.startswith("tsan") and (rc == 66 or "ThreadSanitizer" in stderr):
-                i = stderr.find("WARNING: ThreadSanitizer")
-                violation("C16/tsan-report", {"cmd": " ".join(cmd[1:]), "report": stderr[i:i + 2500]})
-                continue
-            if out is None or rc != 0:
-                cause = _death_cause(rc if isinstance(rc, int) else 1, stderr)
-                violation("C16/process-died/%s" % cause, {"cmd": " ".join(cmd[1:]), "stderr": stderr[-800:]})
-                continue
-            obs["runs/%s" % kind] = obs.get("runs/%s" % kind, 0) + 1
-            if out["mode"] == "stress":
-                merged["evaluations"] += out["searches"]
-                sigs.add(kind + ":" + out["interleaving"])
-                if out["mismatches"]:
-                    violation("C16/divergent-result", {"cmd": " ".join(cmd[1:]), "details": out["mismatches"][:3]})
-                if out["panics"]:
-                    violation("C16/panic-in-thread", {"cmd": " ".join(cmd[1:])})
-                if out["inputs_mutated"]:
-                    violation("C16/shared-input-mutated", {"cmd": " ".join(cmd[1:]), "inputs": out["inputs_mutated"]})
-            else:
-                merged["evaluations"] += out["probes"]
-                key = "%d/%d" % (out["arrived_before_init"], out["threads"])
-                arrived_hist[key] = arrived_hist.get(key, 0) + 1
-                inits[str(out["runtime_initialisations"])] = inits.get(str(out["runtime_initialisations"]), 0) + 1
-                sigs.add("first:%s:%s" % (key, out["spins"]))
-                if out["problems"]:
-                    violation("C16/first-use-race/divergent-or-missing-builtin", {"cmd": " ".join(cmd[1:]), "details": out["problems"][:3]})
-                if out["panics"]:
-                    violation("C16/panic-in-thread", {"cmd": " ".join(cmd[1:])})
+    # the hammer runs need the cores to themselves (a race between threads of one process does not show while
+    # sixteen other processes keep them off the CPUs): they run afterwards, one at a time
+    phases = (([j for j in jobs if j[0] != "hammer"], o.NCPU), ([j for j in jobs if j[0] == "hammer"], 1))
+    for phase_jobs, workers in phases:
+        with ThreadPoolExecutor(max_workers=workers) as ex:
+            futs = [(kind, cmd, ex.submit(_run_json, cmd, env_t if kind.startswith("tsan") else None)) for kind, cmd in phase_jobs]
+            for kind, cmd, f in futs:
+                out, rc, stderr = f.result()
+                if rc == "watchdog":
+                    merged["inconclusive"].append("%s: wall-clock watchdog" % " ".join(cmd[1:]))
+                    continue
+                if kind.startswith("tsan") and (rc == 66 or "ThreadSanitizer" in stderr):
+                    i = stderr.find("WARNING: ThreadSanitizer")
+                    violation("C16/tsan-report", {"cmd": " ".join(cmd[1:]), "report": stderr[i:i + 2500]})
+                    continue
+                if out is None or rc != 0:
+                    cause = _death_cause(rc if isinstance(rc, int) else 1, stderr)
+                    violation("C16/process-died/%s" % cause, {"cmd": " ".join(cmd[1:]), "stderr": stderr[-800:]})
+                    continue
+                obs["runs/%s" % kind] = obs.get("runs/%s" % kind, 0) + 1
+                if out["mode"] == "stress":
+                    merged["evaluations"] += out["searches"]
+                    sigs.add(kind + ":" + out["interleaving"])
+                    for fn, n in (out.get("per_function") or {}).items():
+                        obs["hammer_calls/%s" % fn] = obs.get("hammer_calls/%s" % fn, 0) + n
+                    if out.get("fresh_runtime_rounds"):
+                        obs["hammer_fresh_runtime_rounds"] = obs.get("hammer_fresh_runtime_rounds", 0) + out["fresh_runtime_rounds"]
+                    if out["mismatches"]:
+                        violation("C16/divergent-result", {"cmd": " ".join(cmd[1:]), "details": out["mismatches"][:3]})
+                    if out["panics"]:
+                        violation("C16/panic-in-thread", {"cmd": " ".join(cmd[1:])})
+                    if out["inputs_mutated"]:
+                        violation("C16/shared-input-mutated", {"cmd": " ".join(cmd[1:]), "inputs": out["inputs_mutated"]})
+                else:
+                    merged["evaluations"] += out["probes"]
+                    key = "%d/%d" % (out["arrived_before_init"], out["threads"])
+                    arrived_hist[key] = arrived_hist.get(key, 0) + 1
+                    inits[str(out["runtime_initialisations"])] = inits.get(str(out["runtime_initialisations"]), 0) + 1
+                    sigs.add("first:%s:%s" % (key, out["spins"]))
+                    if out["problems"]:
+                        violation("C16/first-use-race/divergent-or-missing-builtin", {"cmd": " ".join(cmd[1:]), "details": out["problems"][:3]})
+                    if out["panics"]:
+                        violation("C16/panic-in-thread", {"cmd": " ".join(cmd[1:])})
     merged["distinct"].update(hash(s) & 0xFFFFFFFFFFFF for s in sigs)
     merged["samples"] = [{"stress_interleaving_signatures(first 48 ticketed operations by thread)": sorted(s for s in sigs if s.startswith("stress"))[:4]},
                          {"first_use_runs(arrived_before_init/threads -> runs)": arrived_hist}]
